@@ -189,6 +189,28 @@ pub fn long_sessions(thorough: bool) -> Vec<(String, Vec<SatOp>)> {
         h.push(SatOp::Assume((1..=m).map(|i| -i).collect()));
         out.push((format!("exactly_one({})", m), h));
     }
+    // all variables equal (x_i or not x_j for every ordered pair): the instance text straddles 2^16 bytes
+    // (90 variables), 2^20 bytes (350) and, thorough, 2^22 bytes (700); every literal of every clause is
+    // the only true one under the all-true or the all-false assumptions, so a lost or altered token
+    // changes a verdict
+    for m in if thorough { vec![90i32, 350, 700] } else { vec![90, 350] } {
+        let mut h = vec![];
+        for i in 1..=m {
+            for j in 1..=m {
+                if i != j {
+                    h.push(SatOp::Add(vec![i, -j]));
+                }
+            }
+        }
+        h.push(SatOp::Assume((1..=m).collect()));
+        h.push(SatOp::Assume((1..=m).map(|i| -i).collect()));
+        h.push(SatOp::Assume(vec![1, -2]));
+        h.push(SatOp::Solve);
+        h.push(SatOp::Add(vec![m / 2]));
+        h.push(SatOp::Assume(vec![-m]));
+        h.push(SatOp::Assume((1..=m).collect()));
+        out.push((format!("all_equal({})", m), h));
+    }
     // pigeonhole p+1 into p (unsatisfiable), made satisfiable per call by an escape literal
     for p in [3i32, 4] {
         let var = |pg: i32, hole: i32| pg * p + hole + 1;
@@ -219,10 +241,15 @@ pub fn long_sessions(thorough: bool) -> Vec<(String, Vec<SatOp>)> {
 
 /// run one history on one backend; first deviation as (step, what, message)
 pub fn run_history(b: BackendKind, ops: &[SatOp]) -> Result<u32, (usize, String, String)> {
-    let mut solver = match catch(|| make(b)) {
+    let solver = match catch(|| make(b)) {
         Ok(s) => s,
         Err(p) => return Err((0, "panic".into(), format!("constructor panicked: {}", p))),
     };
+    run_history_on(solver, ops)
+}
+
+/// the same on a solver object supplied by the caller (C16 runs the long sessions with logging on)
+pub fn run_history_on(mut solver: Box<dyn SatSolver>, ops: &[SatOp]) -> Result<u32, (usize, String, String)> {
     let mut clauses: Vec<Vec<i32>> = vec![];
     let mut reserved = 0usize;
     let mut max_clause_var = 0usize;
